@@ -6,7 +6,7 @@ sequence of composer operations with their row contents / wiring, the value expr
 the explicit `Err` exits, and the dependency preconditions that must have been established (JubJubAffine::from(ext)
 needs Z != 0).  Witness values never influence the event sequence: where the code branches on a value, every path
 must produce the contract's sequence (path splitting)."""
-from vlib.ring import (Unit, Sym, VArr, VTuple, VOpaque, VLabel, VStruct, VOk, VErr, UNIT, as_poly as P, sym, vec,
+from vlib.ring import (VIter, Unit, Sym, VArr, VTuple, VOpaque, VLabel, VStruct, VOk, VErr, UNIT, as_poly as P, sym, vec,
                        OutsideFragment, canon, PURE_GETTERS)
 from vlib.poly import Poly, S, C
 
@@ -502,10 +502,43 @@ def idx(v, i):
     return VOpaque("idx", [v, i])
 
 
+def dbl(p, n):
+    """[2^n] p by n doublings (flattened: double(dbl(p, k)) == dbl(p, k + 1))"""
+    return p if n == 0 else VOpaque("doubled", [p, n])
+
+
+def c_point_double(it, recv, a):
+    # doubling of a JubJub point (dependency operation): uninterpreted; scalars keep the ring meaning
+    if isinstance(recv, Sym) and recv.path == "generator":
+        return dbl(recv, 1)
+    if isinstance(recv, VOpaque) and recv.name == "doubled":
+        return dbl(recv.args[0], recv.args[1] + 1)
+    return NotImplemented
+
+
+def c_reverse(it, recv, a):
+    if isinstance(recv, VArr):
+        recv.items.reverse()
+        return UNIT
+    return NotImplemented
+
+
+CONTRACTS[".reverse"] = c_reverse
+CONTRACTS[".double"] = c_point_double
+CONTRACTS["JubJubExtended::default"] = lambda it, recv, a: VOpaque("JubJubExtended::default")
+CONTRACTS["dusk_jubjub::batch_normalize"] = lambda it, recv, a: VIter([VOpaque("normalize", [x]) for x in a[0].items]) if isinstance(a[0], VArr) else NotImplemented
+# pure constructors of the dependency (uninterpreted)
+FB_PURE = {"JubJubExtended::from_affine": lambda it, recv, a: VOpaque("JubJubExtended::from_affine", list(a)),
+           "JubJubAffine::from_raw_unchecked": lambda it, recv, a: VOpaque("JubJubAffine::from_raw_unchecked", list(a))}
+
+
 def c_fixed_base_digits(it, recv, a):
     k, gen, digits = a
     c_assert_canonical_jubjub_scalar(it, None, [k])                  # s is a canonical JubJub scalar (C14)
-    pacc, sacc, mult, xya = H("point_acc", 2), H("scalar_acc", 2), H("wnaf_point_multiples", 2), H("xy_alphas", 1)
+    pacc, sacc, xya = H("point_acc", 2), H("scalar_acc", 2), H("xy_alphas", 1)
+    # the table hard-wired into the selectors: round i (most significant digit first) uses normalize([2^(255-i)] generator),
+    # every entry derived from the GENERATOR ITSELF by repeated doubling
+    mult = VArr([VOpaque("normalize", [dbl(gen, 255 - i)]) for i in range(256)], "vec")
     leading = ZERO
     for i in range(256):
         ax = c_append_witness(it, None, [VOpaque("get_u", [idx(pacc, i)])])
@@ -517,8 +550,8 @@ def c_fixed_base_digits(it, recv, a):
             ev(it, "assert_equal_constant", ax, C(0), VOpaque("None"))
             ev(it, "assert_equal_constant", ay, C(1), VOpaque("None"))
             ev(it, "assert_equal_constant", ab, C(0), VOpaque("None"))
-        xb = P(VOpaque("get_u", [idx(mult, i)]))
-        yb = P(VOpaque("get_v", [idx(mult, i)]))
+        xb = P(VOpaque("get_u", [mult.items[i]]))
+        yb = P(VOpaque("get_v", [mult.items[i]]))
         xy = c_append_witness(it, None, [idx(xya, i)])
         ev(it, "append_custom_gate", cons({"sel": VOpaque("sel:fixed_base"), "q_l": xb, "q_r": yb, "q_c": xb * yb,
                                            "a": ax, "b": ay, "c": xy, "d": ab}))
@@ -535,7 +568,7 @@ CONSTS["None"] = VOpaque("None")
 unit("fixed_base.append_fixed_base_signed_digits", FB, "Composer::append_fixed_base_signed_digits",
      [SELF, ("jubjub", sym("jubjub")), ("generator", sym("generator")), ("signed_digits", sym("signed_digits"))],
      c_fixed_base_digits, consts=dict(CONSTS, FIXED_BASE_SIGNED_DIGIT_ROUNDS=256, FIXED_BASE_LEADING_ZERO_ROUNDS=3),
-     trace_only=True, tracked=("self",))
+     trace_only=True, tracked=("self",)).extra_contracts = FB_PURE
 
 
 # ------------------------------------------------------------------ component_decomposition::<N> (instances)
